@@ -374,7 +374,7 @@ func runCheck(prop, tier string, nWorkers int, solverName, only, repo string, bu
 		tierN = 1
 	}
 	if budget == 0 {
-		budget = 240
+		budget = 1200
 		if tierN == 1 {
 			budget = 7200
 		}
